@@ -555,3 +555,7 @@ CHECKS["C03"]["required_classes"]["all"] += ["agent-traced-with-invalid-names"]
 CHECKS["C19"]["jobs"].append(J("timinggrid", AGENT, "TestC19TimingGrid", {"shards": 1, "timeout": 900}, toolchain="go126", rapid=False))
 CHECKS["C19"]["required_classes"]["all"] += ["timing-grid-exhaustive"]
 CHECKS["C19"]["exhaustive_note"] = "the 259 notification patterns of the timing grid (1..4 notifications, gaps from {0, 1ns, limit-1ns, limit, limit+1ns, 2*limit}) are enumerated completely on every run"
+
+CHECKS["C11"]["jobs"].append(J("smallscope", AGENT, "TestC11SmallScope", {"shards": 2, "n": 8, "timeout": 900}, {"shards": 8, "n": 8, "timeout": 3000}, toolchain="go126", rapid=False))
+CHECKS["C11"]["required_classes"]["all"] += ["small-scope-exhaustive-pairs"]
+CHECKS["C11"]["exhaustive_note"] = "all 64 ordered pairs of the 8-operation alphabet on one upgradeable user, in both upgrade modes, are enumerated on every run (each run 4 times); all 512 ordered triples over the 8 thorough shards"
